@@ -61,9 +61,28 @@ Definition bal_change_ok (blocked : list string) (o : op) (acct d : string) (b b
   | _ => False
   end.
 
+(** the denom a message is about *)
+Definition op_denom (o : op) : string :=
+  match o with
+  | Create sender sub => tf_denom sender sub
+  | Mint _ d _ _ _ | Burn _ d _ _ _ | ChangeAdmin _ d _ _ | SetMeta _ d _ | BurnNative _ d _ _ => d
+  end.
+
+(** an accepted admin-only message was signed by the admin on record before it, and an accepted
+    hand-over leaves exactly the named successor on record *)
+Definition authority_ok (prev cur : snap) (o : op) : Prop :=
+  match o with
+  | Mint sender d _ _ _ | Burn sender d _ _ _ | SetMeta sender d _ => lookup d (sn_admin prev) = Some (Some sender)
+  | ChangeAdmin sender d new _ =>
+      lookup d (sn_admin prev) = Some (Some sender) /\ lookup d (sn_admin cur) = Some (Some new)
+  | _ => True
+  end.
+
 Definition step_P (strict : bool) (blocked : list string) (prev : snap) (o : op) (ok : bool) (cur : snap) : Prop :=
   (* a rejected message changes nothing *)
   (ok = false -> cur = prev) /\
+  (* accepted admin-only messages come from the admin on record; a hand-over installs the successor *)
+  (ok = true -> authority_ok prev cur o) /\
   (* supply of any tracked denom moves only by an admin-signed mint / burn, by the stated amount *)
   (forall d v', In (d, v') (sn_supply cur) ->
      exists v, lookup d (sn_supply prev) = Some v /\ (v' <> v -> ok = true /\ supply_change_ok strict prev o d v v')) /\
@@ -164,8 +183,19 @@ Definition bal_change_ok_b (blocked : list string) (o : op) (acct d : string) (b
   | _ => false
   end.
 
+Definition admin_is (sn : snap) (d a : string) : bool :=
+  match lookup d (sn_admin sn) with Some (Some x) => String.eqb x a | _ => false end.
+
+Definition authority_ok_b (prev cur : snap) (o : op) : bool :=
+  match o with
+  | Mint sender d _ _ _ | Burn sender d _ _ _ | SetMeta sender d _ => admin_is prev d sender
+  | ChangeAdmin sender d new _ => admin_is prev d sender && admin_is cur d new
+  | _ => true
+  end.
+
 Definition step_Pb (strict : bool) (blocked : list string) (prev : snap) (o : op) (ok : bool) (cur : snap) : bool :=
   (ok || snap_eqb cur prev) &&
+  (negb ok || authority_ok_b prev cur o) &&
   forallb (fun e : string * Z => let '(d, v') := e in
              match lookup d (sn_supply prev) with
              | Some v => (v' =? v) || (ok && supply_change_ok_b strict prev o d v v')
@@ -276,12 +306,25 @@ Proof.
   - rewrite !andb_true_iff, !String.eqb_eq, Z.eqb_eq, Z.leb_le. intros [[[H1 H2] H3] H4]. auto.
 Qed.
 
+Lemma admin_is_sound sn d a : admin_is sn d a = true -> lookup d (sn_admin sn) = Some (Some a).
+Proof.
+  unfold admin_is. destruct (lookup d (sn_admin sn)) as [[x|]|]; try discriminate.
+  intro H. apply String.eqb_eq in H. subst. reflexivity.
+Qed.
+
+Lemma authority_ok_b_sound prev cur o : authority_ok_b prev cur o = true -> authority_ok prev cur o.
+Proof.
+  destruct o; simpl; auto; try apply admin_is_sound.
+  rewrite andb_true_iff. intros [H1 H2]. split; apply admin_is_sound; auto.
+Qed.
+
 Lemma step_Pb_sound strict blocked prev o ok cur : step_Pb strict blocked prev o ok cur = true -> step_P strict blocked prev o ok cur.
 Proof.
-  unfold step_Pb, step_P. rewrite !andb_true_iff. intros [[[[[H1 H2] H3] H4] H5] H6].
+  unfold step_Pb, step_P. rewrite !andb_true_iff. intros [[[[[[H1 Hau] H2] H3] H4] H5] H6].
   rewrite forallb_forall in H2, H3, H5, H6.
-  split; [|split; [|split; [|split; [|split]]]].
+  split; [|split; [|split; [|split; [|split; [|split]]]]].
   - intro Hk. subst ok. simpl in H1. apply snap_eqb_eq. exact H1.
+  - intro Hk. subst ok. simpl in Hau. apply authority_ok_b_sound. exact Hau.
   - intros d v' Hin. specialize (H2 _ Hin). simpl in H2.
     destruct (lookup d (sn_supply prev)) as [v|]; try discriminate. exists v. split; auto.
     intro Hne. apply orb_true_iff in H2 as [H2|H2].
